@@ -69,11 +69,12 @@ class Sink:
 
 
 class Taint:
-    def __init__(self, world, doc_types, decoded_enums=()):
+    def __init__(self, world, doc_types, decoded_enums=(), source_calls=None):
         self.w = world
         self.lib = world.lib
         self.g = world.graph
         self.doc_types = set(doc_types)
+        self.source_calls = source_calls or SOURCE_CALLS
         self.decoded_enums = set(decoded_enums)
         self.V = defaultdict(set)     # (body, local) -> labels
         self.D = defaultdict(set)
@@ -359,7 +360,7 @@ class Taint:
             for tg in self.g.call_targets(self.lib, e.term):
                 if tg in self.lib.bodies:
                     targets.append(tg)
-        if SOURCE_CALLS.search(name):
+        if self.source_calls.search(name):
             V.add(SRC)
             if "from_" in name:
                 D.add(SRC)
@@ -375,7 +376,7 @@ class Taint:
                     V |= self._subst(self.retV.get(tg, ()), argV, argD)
                     D |= self._subst(self.retD.get(tg, ()), argV, argD)
                     self._inherit_sinks(body, e, tg, argV, argD)
-        elif not SOURCE_CALLS.search(name):
+        elif not self.source_calls.search(name):
             if UNWRAP.search(decl):
                 V = set(argV[0]) if argV else set()
             elif FALLIBLE.search(name) or FALLIBLE.search(decl):
